@@ -155,6 +155,11 @@ def check(repo: Repo, rep: Report) -> None:
             if not marshalled:
                 rep.ob("P2-cancel-marshalled-or-dominated", d, f"{mname}.dispose: has a marshalled branch", False,
                        "dispose has no branch that marshals the cancellation onto the loop thread")
+            else:
+                rep.ob("P2-cancel-marshalled-or-dominated", d, f"{mname}.dispose: the marshalled callback cancels the handle",
+                       any(_reaches_cancel(cb) for cb in marshalled),
+                       "the callback dispose() marshals onto the loop thread cancels nothing: a dispose from a foreign thread waits for "
+                       "the loop and returns with the action still scheduled")
     rep.require(n_disp >= 2, "dispose closures")
     # P3 -----------------------------------------------------------------
     for m in cls.children:
